@@ -249,6 +249,18 @@ MarkConfigApplied(s, i) ==
   /\ ref'   = [ref EXCEPT ![s].cfg = i]
   /\ ev'    = [a |-> "MarkConfigApplied", s |-> s, i |-> i, res |-> [ok |-> TRUE]]
 
+\* A Save / ReplaceSnapshot / MarkApplied that is acceptable but returns an error to its caller
+\* because the Pebble batch that carried it was not committed (flushWriteRequests: the commit
+\* failed, or another request of the same cross-scope batch was refused by the worker after this
+\* request's saveOp.apply had already run on the writer's working copy of the cached state).
+\* The caller saw an error, so the reference did not move; nothing of the attempted write may
+\* survive: no record, no change of the committed writer cache (the working copy is dropped) -
+\* now and through every later write on the scope.  The arguments of the attempted call are
+\* irrelevant to the specification and are not part of the action.
+SaveFails(s) ==
+  /\ UNCHANGED <<disk, cache, ref>>
+  /\ ev' = [a |-> "SaveFails", s |-> s, res |-> [ok |-> FALSE]]
+
 \* Clean Close followed by Open of the same directory: the writer cache is gone.
 Reopen ==
   /\ cache' = [s \in Scopes |-> NoCache]
@@ -358,6 +370,7 @@ Next ==
   \/ \E s \in Scopes : \E i \in ref[s].applied..ref[s].hs.commit : MarkApplied(s, i)
   \/ \E s \in Scopes : \E i \in {0, ref[s].applied} : MarkConfigApplied(s, i)
   \/ \E s \in Scopes : \E snap \in ReplaceChoices(ref[s]) : ReplaceSnapshot(s, snap)
+  \/ \E s \in Scopes : SaveFails(s)
   \/ Reopen
   \/ \E s \in Scopes : \E lo \in 1..(MaxIdx + 1) : \E hi \in lo..(MaxIdx + 2) : GetEntries(s, lo, hi)
   \/ \E s \in Scopes : \E i \in 0..(MaxIdx + 1) : GetTerm(s, i)
